@@ -5,7 +5,7 @@ import json
 import os
 import random
 from . import common as C
-from . import docgen, docs, infoset
+from . import docgen, docs, extract, infoset
 
 
 def classify(msg, exc, node):
@@ -95,6 +95,7 @@ def run(rep):
             rep.finding_or_violation(key, '<%s>: re-parsed document differs: %s' % (node['tag'], d), {'document': node, 'difference': d, 'emitted': r['s1'][:1500], 'reparsed': r['s2'][:1500]})
         elif r['s3'] != r['s2']:
             rep.violation('<%s>: the second round trip is not byte-identical to the first' % node['tag'], {'document': node, 'second': r['s2'][:1500], 'third': r['s3'][:1500]})
+    emitted_value_model(rep, cases, ra, g)
     sizes = [docgen.size(c) for c in cases]
     rep.coverage.update({'evaluations': len(cases), 'distinct_nontrivial': sum(1 for c in cases if docgen.size(c) >= 3), 'traces_validated_against_impl': n_emitted,
                          'documents_emitted': n_emitted, 'full_round_trips': n_rt, 'not_emittable': steps,
@@ -107,6 +108,71 @@ def run(rep):
             rep.violation('Properties/C08.v no longer checks (theorem %s)' % res['failing'], {'theorem': res['failing'], 'parser_as_read_by_the_translator': json.load(open(os.path.join(C.BUILD, 'code.json'))).get('parser'), 'log': res['log'][-2000:]}, found_input=False)
     rep.assumptions += ['float() / int() of Python are parameters of the ladder theorems (hypotheses stated in Properties/C08.v)',
                         'documents the library refuses to build or emit are outside this property (counted in not_emittable)']
+
+
+def emitted_value_model(rep, cases, ra, g):
+    """the library's first emission s1 (of documents built through the API with typed values) fed to the extracted document model with values
+    (DocValTables.vrun): the model must predict the library's second emission s2 - refusal step, elements, texts, attributes -, and where s1
+    meets the premise of C08_values_second_roundtrip_identical (gvalid) the library must give s1 back unchanged"""
+    import xml.etree.ElementTree as ET
+    from . import c09
+    reserved = set(g['lib']['properties'])
+
+    def node_of(e):
+        kids = [node_of(c) for c in e]
+        return {'tag': e.tag, 'text': (e.text or '').strip() if kids else (e.text or ''), 'attrs': [[k, v] for k, v in e.attrib.items()], 'kids': kids}
+
+    def inside(d):
+        return all(':' not in a[0] and '{' not in a[0] and '_' not in a[0] and a[0] not in reserved for a in d['attrs']) and all(inside(k) for k in d['kids'])
+    docs, back = [], []
+    for node, r in zip(cases, ra):
+        if 's1' not in r or ('exc' in r and r['step'] not in ('parse1', 'emit2')):
+            continue
+        d = node_of(ET.fromstring(r['s1']))
+        if not inside(d):
+            continue                      # namespaced / Python-side attribute names: outside this model (C04's model covers them)
+        docs.append(d)
+        back.append(r)
+    floats = {}
+
+    def collect(d):
+        for t in [d['text'].strip()] + [a[1] for a in d['attrs']] + [a[1].strip() for a in d['attrs']]:
+            if t not in floats:
+                floats[t] = c09.float_oracle(t)
+        for k in d['kids']:
+            collect(k)
+    for d in docs:
+        collect(d)
+    m = extract.Model()
+    try:
+        mo = m.run_vdocs(docs, floats)
+    finally:
+        m.close()
+    n = {'OK': 0, 'NOPARSE': 0, 'NOEMIT': 0, 'premise_met': 0, 'no_machine': 0}
+    bad = 0
+    for d, r, mr in zip(docs, back, mo):
+        if mr[0] == 'NOMACHINE':
+            n['no_machine'] += 1
+            continue
+        prem, model = mr[0], tuple(mr[1:])
+        if 'exc' in r:
+            impl = ('NOPARSE',) if r['step'] == 'parse1' else ('NOEMIT',)
+        else:
+            impl = ('OK', c09.vtree_of_text(r['s2']))
+        n[model[0]] += 1
+        n['premise_met'] += 1 if prem >= 1 else 0
+        key = None
+        if impl != model:
+            key = 'model %s, implementation %s' % (str(model)[:300], str(impl)[:300])
+        elif prem >= 1 and impl != ('OK', c09.vtree_of_node(d)):
+            key = 'the emitted document meets the premise (every value a fixed point of its ladder) but its re-emission differs: %s' % str(impl)[:300]
+        if key:
+            bad += 1
+            if bad <= 3:
+                rep.violation('document model with values and implementation disagree on the re-parse of an emitted <%s>: %s' % (d['tag'], key),
+                              {'correspondence': 'parse_musicxml + to_string on the library\'s own output <-> DocValTables.vparse / vemit', 'emitted_document': r['s1'][:3000],
+                               'model': mr, 'implementation': impl}, found_input=False)
+    rep.coverage['emitted_document_value_model'] = dict(n, emitted_documents=len(docs), differences=bad)
 
 
 def replay(path):
